@@ -1,0 +1,135 @@
+//! Verification hooks (feature `verif`): thin public wrappers around
+//! crate-private codecs. Nothing here changes behaviour; every function only
+//! forwards to the real implementation.
+
+use {
+  super::*,
+  crate::index::entry::Entry,
+  bitcoin::block::Header,
+};
+
+pub use crate::index::entry::InscriptionEntry;
+
+// ---- inscription ids (C27) -------------------------------------------------
+
+pub fn inscription_id_value(id: InscriptionId) -> Vec<u8> {
+  id.value()
+}
+
+pub fn inscription_id_from_value(value: &[u8]) -> Option<InscriptionId> {
+  InscriptionId::from_value(value)
+}
+
+// ---- properties (C28) ------------------------------------------------------
+
+pub fn inscription_properties(inscription: &Inscription) -> Properties {
+  inscription.properties()
+}
+
+pub fn properties_to_inline_cbor(properties: &Properties) -> Option<Vec<u8>> {
+  properties.to_inline_cbor()
+}
+
+pub fn properties_to_packed_cbor(properties: &Properties) -> Option<Vec<u8>> {
+  properties.to_packed_cbor()
+}
+
+pub fn properties_from_cbor(cbor: &[u8]) -> Properties {
+  Properties::from_cbor(cbor)
+}
+
+// ---- index entries (C35) ---------------------------------------------------
+
+fn through_redb<V>(value: V::SelfType<'_>) -> Vec<u8>
+where
+  V: redb::Value + 'static,
+{
+  V::as_bytes(&value).as_ref().to_vec()
+}
+
+pub fn sat_range_store(range: (u64, u64)) -> [u8; 11] {
+  range.store()
+}
+
+pub fn sat_range_load(value: [u8; 11]) -> (u64, u64) {
+  <(u64, u64) as Entry>::load(value)
+}
+
+pub fn header_store(header: Header) -> [u8; 80] {
+  header.store()
+}
+
+pub fn header_load(value: [u8; 80]) -> Header {
+  Header::load(value)
+}
+
+pub fn outpoint_store(outpoint: OutPoint) -> [u8; 36] {
+  outpoint.store()
+}
+
+pub fn outpoint_load(value: [u8; 36]) -> OutPoint {
+  OutPoint::load(value)
+}
+
+pub fn satpoint_store(satpoint: SatPoint) -> [u8; 44] {
+  satpoint.store()
+}
+
+pub fn satpoint_load(value: [u8; 44]) -> SatPoint {
+  SatPoint::load(value)
+}
+
+pub fn txid_store(txid: Txid) -> [u8; 32] {
+  txid.store()
+}
+
+pub fn txid_load(value: [u8; 32]) -> Txid {
+  Txid::load(value)
+}
+
+pub fn rune_store(rune: Rune) -> u128 {
+  rune.store()
+}
+
+pub fn rune_load(value: u128) -> Rune {
+  Rune::load(value)
+}
+
+/// store → load, and store → redb value bytes → redb value → load
+pub fn rune_id_roundtrip(id: RuneId) -> (RuneId, RuneId) {
+  type V = <RuneId as Entry>::Value;
+  let bytes = through_redb::<V>(id.store());
+  (
+    RuneId::load(id.store()),
+    RuneId::load(<V as redb::Value>::from_bytes(&bytes)),
+  )
+}
+
+pub fn inscription_id_roundtrip(id: InscriptionId) -> (InscriptionId, InscriptionId) {
+  type V = <InscriptionId as Entry>::Value;
+  let bytes = through_redb::<V>(id.store());
+  (
+    InscriptionId::load(id.store()),
+    InscriptionId::load(<V as redb::Value>::from_bytes(&bytes)),
+  )
+}
+
+pub fn rune_entry_roundtrip(entry: RuneEntry) -> (RuneEntry, RuneEntry) {
+  type V = <RuneEntry as Entry>::Value;
+  let bytes = through_redb::<V>(entry.store());
+  (
+    RuneEntry::load(entry.store()),
+    RuneEntry::load(<V as redb::Value>::from_bytes(&bytes)),
+  )
+}
+
+pub fn inscription_entry_roundtrip(
+  entry: InscriptionEntry,
+) -> (InscriptionEntry, InscriptionEntry) {
+  type V = <InscriptionEntry as Entry>::Value;
+  let bytes = through_redb::<V>(entry.clone().store());
+  (
+    InscriptionEntry::load(entry.store()),
+    InscriptionEntry::load(<V as redb::Value>::from_bytes(&bytes)),
+  )
+}
